@@ -43,10 +43,19 @@ def run(rep, ctx):
         fc['mode'] = 'allfile'
         fc['dir'] = d
         filecases.append(fc)
+    # the same with a long report of an earlier run already present in the working directory
+    stalecases = []
+    for c in alls:
+        fc = dict(c)
+        fc['mode'] = 'allfilestale'
+        fc['dir'] = d
+        stalecases.append(fc)
     fouts = rc.run_impl_batch(rc.vh_report(ctx), filecases) if filecases else []
+    souts = rc.run_impl_batch(rc.vh_report(ctx), stalecases) if stalecases else []
     shutil.rmtree(d, ignore_errors=True)
     all_outs = [o for c, o in zip(cases, outs) if c['mode'] == 'all']
     file_mismatch = [c for c, a, b in zip(alls, all_outs, fouts) if a != b]
+    stale_bad = [(c, b) for c, a, b in zip(alls, all_outs, souts) if a != b]
     rc.fill_coverage(rep, cases, outs, codes, S_CODES,
                      'findings maps: every subset of the 4 vulnerabilities and of the 3 QA patterns, every single optimization, all 23 '
                      'together, random subsets of the optimizations, whole reports for every combination of empty/non-empty categories; '
@@ -55,11 +64,26 @@ def run(rep, ctx):
                      'for model = implementation only.  Non-trivial = well-formed map with >= 2 entries.  For each: implementation bytes = '
                      'model bytes, and on the implementation bytes: reader(report) = findings (multiset), key line present <-> pattern has a '
                      'finding, entries contiguous per pattern',
-                     {'generate_report_file_vs_concatenation': {'cases': len(filecases), 'mismatches': len(file_mismatch)}})
+                     {'generate_report_file_vs_concatenation': {'cases': len(filecases), 'mismatches': len(file_mismatch)},
+                      'report_file_over_stale_longer_report': {'cases': len(stalecases), 'mismatches': len(stale_bad)}})
 
     def fails_spec(cands, key):
         return [bool(set(k) & key) for k in rc.evaluate(ctx, cands, 'shrink-c11')[1]]
     found = rc.report_failures(rep, ctx, 'C11', cases, outs, codes, S_CODES, fails_spec, theorem_of)
+    if stale_bad and not file_mismatch:
+        # the file written over an older, longer report is not the report of this run: the reader is evaluated on it
+        c, b = max(stale_bad, key=lambda cb: sum(len(v) for m in cb[0]['maps'].values() for p, v in m))
+        fc = dict(c)
+        fc['mode'] = 'allfilestale'
+        fc['dir'] = d
+        so, sc = rc.evaluate(ctx, [fc], 'stale-c11')
+        shutil.rmtree(d, ignore_errors=True)
+        is_s = bool(set(sc[0]) & S_CODES)
+        found = found or is_s
+        rep.violation('solstat_report.md written in a directory that already holds a longer report of an earlier run is not the report of '
+                      'this run' + (': it does not list exactly the findings (entries of the earlier report remain)' if is_s else ''),
+                      {'kind': 'S' if is_s else 'M', 'input': fc, 'failed_sub_checks': sc[0], 'stale_report': 'generate_report is first run in the same directory on a map with 60 files for every pattern', 'theorem': 'report_entries_exact',
+                       'n_failing': len(stale_bad)}, no_input=not is_s)
     if file_mismatch and not found:
         rep.violation('generate_report (file written) differs from the concatenation of the three generators that the model describes',
                       {'kind': 'M', 'input': file_mismatch[0], 'model_function': 'Report.generate_report',
